@@ -473,6 +473,8 @@ func runC11(p *Prog, r *Report) {
 	c11R3(p, r)
 	c11R4(p, r)
 	c11R5(p, r)
+	updateFlagRule(p, r, "C11.R7")
+	constructorUnguardedRule(p, r, "C11.R8")
 	mustAssignRule(p, r, "C11.R6")
 }
 
